@@ -281,7 +281,7 @@ COMMON_TEXT = (" The rule is decided on MIR built with debug assertions; it carr
                "profile/debug-assertions-are-pure).")
 EXTRA = {
     "C16": "parse/*: the parser reads printed text as the variant, operands and numbers printed (C03's ast/*, numeric/value/hex|dec, program/*).",
-    "C12": "The run loop ends on an error halt as on a regular stop (run-loop/error-halt-*).",
+    "C12": "The run loop ends on an error halt as on a regular stop (run-loop/error-halt-*). cli/multi-option-one-value: repeatable options of `run` take one value per occurrence (generated clap definition).",
     "C04": "pipeline/frame/registers: per programmed word, an edge without a pending commit leaves R0-R7 (the interrupt-enable bit included) unchanged. gate/enable-store: a store of b to 0xF9 enables the key exactly for odd b (256 bytes).",
     "C01": "The bus rule of C10 (bus/*), the ALU rule of C08 (alu/*) and the fetch latch clause (fetch/*) are part of this rule.",
     "C02": "Under parse/*: the parser clauses ast/* (AST variant, operand order, no operand child dropped) and numeric/value "
@@ -291,16 +291,16 @@ EXTRA = {
            "numerals, comment/trimmed on 341 concrete comment texts, label-check-propagates, program/* (one Line per line pair), and "
            "error-path/* (the conversion of a pest error interpreted for 0..5 expected rules). labels/limit is evaluated on concrete numbers of definitions on both sides of 40 and of 256. ast/operand-forms: the real operand parsers interpreted on PEG parse trees of concrete operand texts. grammar/no-call-limit: nothing in the workspace arms pest's process-wide call limit.",
     "C05": "The pipeline agreement of C01 runs here as cpu-pipeline/*. fetch/*: an IR-loading control word reads the bus in the same word and latches that byte.",
-    "C06": "The sites of Machine::load are analysed per *PROGRAMSIZE kind and keyed by the kinds they can fail for.",
+    "C06": "The sites of Machine::load are analysed per *PROGRAMSIZE kind and keyed by the kinds they can fail for. contract/*: every call from the analysed functions to a std routine with a panic contract is an obligation.",
     "C07": "A latch classed 'constant None' is shown to be that constant (constant-none/*). load/default-limits: a program without limit directives is translated with the power-on stack limit and AUTO.",
     "C09": "The ALU rule of C08 runs here as alu/* (the loop exits are ALU conditions); both resets leave the power-on control state. sequencer-inputs/accessors: Signals::from wires each sequencer input to the source of its name. loop-data-path/*: the pipeline agreement of C01 restricted to the data-driven control words (registers only).",
     "C10": "construct/*: Machine::new, Machine::new_with_program and the interactive front end's constructors present the configured "
-           "input registers; the MICR stores exactly the documented six bits, each at its position. write-port-callers: Bus::write is called by the CPU write stage only. reset_ram-callers: RAM is cleared by the program loaders only. outside/command-register-names: the interactive command FC..FF = v sets the register it names.",
+           "input registers; the MICR stores exactly the documented six bits, each at its position. write-port-callers: Bus::write is called by the CPU write stage only. reset_ram-callers: RAM is cleared by the program loaders only. outside/command-register-names: the interactive command FC..FF = v sets the register it names. master-reset-callers/*: a master reset is issued by the program loaders only.",
     "C11": "The sequencer rule of C09 (with the ALU rule of C08) runs here as sequencer/*: a step returns because every defined opcode "
-           "reaches the next fetch. step-skeleton/Assembly/every-word: the step skeleton with every programmed non-fetch word in the middle.",
-    "C13": "no-recursion on the resolved call graph.",
+           "reaches the next fetch. step-skeleton/Assembly/every-word: the step skeleton with every programmed non-fetch word in the middle. boundary-predicate: is_instruction_done is true exactly on the fetch words.",
+    "C13": "no-recursion on the resolved call graph. contract/* as in C06; operator-trait calls on primitive integers (reference operands) are checked operations (site kind arith-call).",
     "C14": "fan-period/pointwise: all 256 DAC bytes against the exact two-stage law, float operations evaluated in their MIR type.",
-    "C15": "The interrupt hand-over word and the MUL/DIV routines touch no bus address. documented-path/*: the pipeline agreement of C01 restricted to the data-driven control words (registers only). history/reset-control-state/*: a reset leaves the power-on control state (shared with C09).",
+    "C15": "The interrupt hand-over word and the MUL/DIV routines touch no bus address. documented-path/*: the pipeline agreement of C01 restricted to the data-driven control words (registers only). history/reset-control-state/*: a reset leaves the power-on control state (shared with C09). boundary-predicate: is_instruction_done is true exactly on the fetch words.",
     "C17": "Key and command dispatch are must-calls (marker cell); every (code, modifiers) event forwarded to the editor is interpreted "
            "in InputState::handle; no panicking operator arithmetic on Duration/Instant in the TUI module. The helpers the dispatch analysis takes as given (InputState::is_empty, NotificationState::is_empty/clear) are decided on concrete states. load/*: the parser's no-panic clauses (C03 site/*, lexical/*, error-path/*) for the text handed over by `load PATH`.",
 }
